@@ -34,8 +34,13 @@ def factset(ck, cfg, custom=None):
     return _cache[key]
 
 
+DEFAULT_CFG = "lib"
+
+
 def lib(ck, cfg="lib"):
     """The microscpi library crate facts of a configuration; fails closed if the build failed."""
+    if cfg == "lib":
+        cfg = DEFAULT_CFG
     fs = factset(ck, cfg)
     if fs.rc != 0 or fs.crate("microscpi.rlib") is None:
         ck.bad("build", "build:" + cfg, "cargo check of configuration %s failed or produced no facts:\n%s" % (cfg, fs.log[-1500:]))
